@@ -215,14 +215,35 @@ def consumers(prog, res):
                     adv.append((s, x["r"]))
         if not adv:
             raise AnalysisBroken("%s no longer advances a frame cursor" % name)
+        # where is each local defined?
+        defsite = {}
+        for b, i, s in f.all_stmts():
+            for lv, op, rhs, w in ir.writes_of(s):
+                if lv.get("k") == "var":
+                    defsite.setdefault(lv["id"], []).append(b.id)
+        pos_of = {id(s): b.id for b, i, s in f.all_stmts()}
         for s, addend in adv:
             a = ir.strip(addend)
+            loop = paths.innermost_loop(f, pos_of.get(id(s), -1)) if loops else None
+            stale = None
             if isinstance(a, dict) and a.get("k") == "var" and a["id"] in defs:
+                if loop and not any(d in loop for d in defsite.get(a["id"], [])):
+                    stale = "'%s' is read once before the loop" % a["n"]
                 a = ir.strip(defs[a["id"]])
             ok = isinstance(a, dict) and a.get("k") == "mem" and a["f"] == "bytes_of_frame"
+            if ok and loop and stale is None:
+                # the frame whose size is read must be (derived from) the moving cursor
+                base = ir.strip(a["b"])
+                if isinstance(base, dict) and base.get("k") == "var" and "p" not in base:
+                    if not any(d in loop for d in defsite.get(base["id"], [])):
+                        stale = "the size is read from '%s', which does not move with the loop" % base["n"]
             inst = "%s advances by ->bytes_of_frame" % name
-            if ok:
+            if ok and stale is None:
                 res.oblige(R, inst, True, ir.render(addend), f.loc(s))
+            elif ok:
+                res.fail(R, inst, "R-STEP|%s|stale" % name, f.loc(s),
+                         "%s steps over every frame of a packet by one frame's size (%s): with frames of different sizes the walk lands inside a frame"
+                         % (name, stale))
             else:
                 res.fail(R, inst, "R-STEP|%s" % name, f.loc(s),
                          "%s steps over a packet by %s, not by the current frame's bytes_of_frame" % (name, ir.render(addend)))
@@ -269,4 +290,4 @@ def run(ctx, res):
     res.require_min("WITNESS", 7)
     res.require_min("R-PRODUCER", 9)
     res.require_min("R-STEP", 4)
-    res.require_min("T-EXH", 9)
+    res.require_min("T-EXH", 6)
